@@ -144,6 +144,17 @@ def actions():
         return [M.For(M.Decl(INT, i, lit(0)), M.Bin("<", V(i, INT), lit(2)), M.Affix("++", V(i, INT), True),
                       M.Block([M.Decl(INT, t.name), asg(t, "+=", M.Bin("+", P, V(i, INT))), asg(gi, "+=", t)]))]
     A["local-scalar-in-loop"] = local_scalar_loop
+
+    def local_aggregate_loop(k):
+        i = "j%d" % k
+        ta = M.arr(INT, (2,))
+        a = V("ta%d" % k, ta)
+        sv = V("ts%d" % k, S)
+        return [M.For(M.Decl(INT, i, lit(0)), M.Bin("<", V(i, INT), lit(2)), M.Affix("++", V(i, INT), True),
+                      M.Block([M.Decl(ta, a.name), M.Decl(S, sv.name),
+                               asg(idx(a, 1, INT), "+=", M.Bin("+", P, lit(1))), asg(fld(sv, "a"), "+=", lit(3)),
+                               asg(gi, "+=", M.Bin("+", idx(a, 1, INT), fld(sv, "a")))]))]
+    A["local-aggregate-in-loop"] = local_aggregate_loop
     return A
 
 
